@@ -263,6 +263,36 @@ func runC08(tier string, seed uint64) {
 			s.PartRaw(b, "mp", uid, "1", [][2]string{{"Content-Length", "0"}}, []byte{}, -1)
 			snapshot()
 			_ = rng
+			// aws-chunked part uploads with a Content-MD5: the digest is that of the payload, not of its framing
+			// (on an upload of its own, outside the model's view)
+			if !noInt {
+				ir := do(s.h, Req{Method: "POST", Path: "/" + b + "/mp-chunked?uploads", Body: []byte{}})
+				if ids := xmlAll(string(ir.Body), "UploadId"); len(ids) == 1 {
+					pay1, pay2 := []byte("chunked part payload, first"), []byte("CHUNKED PART PAYLOAD, OTHER")
+					put := func(payload []byte, digest string) Resp {
+						st := encodeChunks(splitChunks(payload, []int{9}))
+						return do(s.h, Req{Method: "PUT", Path: "/" + b + "/mp-chunked?uploadId=" + queryEscape(ids[0]) + "&partNumber=1", Body: st, Header: [][2]string{
+							{"X-Amz-Content-Sha256", "STREAMING-AWS4-HMAC-SHA256-PAYLOAD"}, {"X-Amz-Decoded-Content-Length", strconv.Itoa(len(payload))}, {"Content-MD5", digest}}})
+					}
+					parts := func() string {
+						r := do(s.h, Req{Method: "GET", Path: "/" + b + "/mp-chunked?uploadId=" + queryEscape(ids[0])})
+						return fmt.Sprint(r.Status, xmlAll(string(r.Body), "PartNumber"), xmlAll(string(r.Body), "ETag"), xmlAll(string(r.Body), "Size"))
+					}
+					r1 := put(pay1, b64md5(pay1))
+					held := parts()
+					r2 := put(pay2, b64md5(encodeChunks(splitChunks(pay2, []int{9})))) // the digest of the framed bytes: not the payload's
+					r3 := put(pay2, b64md5(pay1))
+					after := parts()
+					msg := fmt.Sprintf("%s: aws-chunked part with the Content-MD5 of its payload answers %d; re-uploads with the digest of the framed body / of other bytes answer %d / %d; the upload held %s and holds %s", kind, r1.Status, r2.Status, r3.Status, held, after)
+					if r1.Status == 200 && r2.Status >= 400 && r3.Status >= 400 && held == after {
+						emit("c08", "GOOD", hs(msg))
+					} else {
+						emit("c08", "BAD", hs("S:chunked-part-digest "+msg))
+					}
+					do(s.h, Req{Method: "DELETE", Path: "/" + b + "/mp-chunked?uploadId=" + queryEscape(ids[0])})
+					nontrivial(fmt.Sprint(kind, "chunked-part-with-digest"))
+				}
+			}
 			// an upload the backend itself refuses (real directories: a path segment longer than a file name
 			// can be) is a rejected upload like any other: nothing of it stays, not even the directories
 			{
